@@ -112,6 +112,9 @@ pub struct TrLog {
     pub ops: Vec<(u8, Vec<u8>, Vec<u8>)>,
     /// challenge bytes drawn on clones of the main transcript (the verifier's `r`)
     pub clone_chals: Vec<(Vec<u8>, Vec<u8>)>,
+    /// for each clone challenge: how many operations the main transcript had absorbed when the clone was taken,
+    /// and how many operations were made on the clone itself before the challenge
+    pub clone_chal_pos: Vec<(usize, usize)>,
     pub rekeys: Vec<(Vec<u8>, Vec<u8>)>,
     pub finalize: Vec<Vec<u8>>,
     pub rng_out: Vec<u8>,
@@ -122,17 +125,20 @@ pub fn split_log(entries: &[Entry]) -> TrLog {
     let mut t = TrLog::default();
     let main = entries.iter().find(|e| e.kind == Kind::New).map(|e| e.tid);
     let mut clones = vec![];
+    let mut clone_at: std::collections::HashMap<u64, (usize, usize)> = Default::default();
     for e in entries {
         match e.kind {
             Kind::New => {}
-            Kind::CloneOf => clones.push(e.tid),
+            Kind::CloneOf => { clones.push(e.tid); clone_at.insert(e.tid as u64, (t.ops.len(), 0)); }
+            Kind::Append if clones.contains(&e.tid) => { if let Some(x) = clone_at.get_mut(&(e.tid as u64)) { x.1 += 1; } }
             Kind::Append if Some(e.tid) == main => t.ops.push((0, e.label.clone(), e.data.clone())),
             Kind::Challenge if Some(e.tid) == main && e.label == b"verif-followup" => {}
             Kind::Challenge if Some(e.tid) == main => {
                 t.ops.push((3, e.label.clone(), e.data.clone()))
             }
             Kind::Challenge if clones.contains(&e.tid) => {
-                t.clone_chals.push((e.label.clone(), e.data.clone()))
+                t.clone_chals.push((e.label.clone(), e.data.clone()));
+                t.clone_chal_pos.push(clone_at.get(&(e.tid as u64)).copied().unwrap_or((usize::MAX, 0)));
             }
             Kind::Rekey => t.rekeys.push((e.label.clone(), e.data.clone())),
             Kind::Finalize => t.finalize.push(e.data.clone()),
